@@ -208,7 +208,8 @@ class Check:
                 by_role.setdefault(c['role'], []).append(c)
             for role, cs in by_role.items():
                 confirmed = None; tried = 0
-                for c in cs[:6]:
+                pick = cs if len(cs) <= 12 else [cs[(i * (len(cs) - 1)) // 11] for i in range(12)]
+                for c in pick:
                     if c['scenario'] is None:
                         continue
                     tried += 1
